@@ -5,6 +5,13 @@ CONSTANTS
   NReads = 0
   SizedOutsideLock = TRUE
   ShutdownInline = FALSE
+  PeersErrInline = FALSE
   ClientGuarded = FALSE
+  NInformers = 0
+  LoopVarShared = FALSE
+  NCheckers = 0
+  NChecks = 0
+  MaxVer = 1
+  DistShared = FALSE
   Part = "informer"
 INVARIANTS NoNilUse
